@@ -106,6 +106,12 @@ claim("C15",
       "Coq proof (prefix-closure of the micro-operation sequence, shape invariant, refutation witnesses) + kill-point enumeration on the real command + op-trace correspondence",
       "DESIGN.md 3 C15")
 
+claim("C11",
+      "Theorems: the executable validator `validate` (complete backtracking content-model matcher, simple types, attribute uses) decides EXACTLY the declarative semantics of the schema values -- for every schema of the supported XSD subset and every document (validate s x = true <-> ValidDoc s x); composition rules for sequences, occurrence ranges and choices (the shapes the writers produce); the e-mail pattern is exactly the language of the XSD's regular expression; the tool's own date format (civil fields, whole-minute offset) and decimal integers are accepted. The two schema values are regenerated from xsd/ASCMHL.xsd and xsd/ASCMHLDirectory.xsd by the translator on every run (fail-closed on anything outside the subset); real tool output validates and 15 kinds of broken documents are rejected by vm_compute against the regenerated values. Tied to the code by running the extracted validator and lxml/libxml2 on the same bytes: every file the real tool writes in generated histories (all option combinations incl. -h repeated, -n, -sf, -dr, -i/-ii, creator options, nested parents that only receive references, empty folders, flatten, failing runs, eight time zones) and ~20 kinds of mutants of them. Oracle: lxml XSD validation of every written manifest, chain and collection file.",
+      "PARTIAL: the theorem 'every document the writers' model emits is valid' (manifest_valid / chain_valid) is not yet proved -- the full statement and the ten invariants it needs are kept in the TODO section of Props/C11.v; until then the property itself rests on the oracle + the validator/libxml2 tie. libxml2 is the reference reading of XSD 1.0 (the validator is as strict as libxml2 where that is stricter than the W3C text). Known finding: local-mean-time offsets with seconds (xsd-invalid:lmt-offset).",
+      "Coq proof (validator = declarative semantics by mutual induction over schema values; regex and date-format lemmas) + schemas regenerated by the translator + extracted validator vs libxml2 differential run + XSD oracle on every written file",
+      "DESIGN.md 3 C11")
+
 PENDING = "check under construction (planned: proof + correspondence, see DESIGN.md section 3)"
 
 
